@@ -183,6 +183,7 @@ class Engine:
         info["loops"] = len(loops)
         st = State()
         self.params: dict[str, Val] = {}
+        self.local_alias = self._renamed_locals(node, c)
         argnames = [a.arg for a in node.args.posonlyargs + node.args.args + node.args.kwonlyargs]
         if node.args.vararg:
             argnames.append(node.args.vararg.arg)
@@ -229,8 +230,47 @@ class Engine:
         return self.obls, info
 
     # ---- helpers ------------------------------------------------------------------------------------
+    @staticmethod
+    def _renamed_locals(node, c) -> dict:
+        """Contracts name the accumulators of a function (locals_: the sort of `result = []`; loop invariants talk about
+        `v.result`).  When such a local has been renamed in the source, the contract's name matches no variable any more.
+        The roles are re-attached by kind and order of first appearance: the k-th accumulator initialised with an empty
+        list (dict) literal that the contract does not know gets the k-th unmatched list (dict) role.  A wrong match can
+        only make obligations fail (the invariants are still proved of the code as it is), never pass.
+        -> {actual variable name: role name in the contract}"""
+        assigned = {n.id for n in ast.walk(node) if isinstance(n, ast.Name) and isinstance(n.ctx, ast.Store)}
+        assigned |= {a.arg for a in node.args.posonlyargs + node.args.args + node.args.kwonlyargs}
+        orphans = {"list": [r for r, t in c.locals_.items() if r not in assigned and isinstance(t, TSeq)],
+                   "dict": [r for r, t in c.locals_.items() if r not in assigned and isinstance(t, (TDict, TRec))]}
+        if not orphans["list"] and not orphans["dict"]:
+            return {}
+        untyped: dict[str, list] = {"list": [], "dict": []}
+        stmts = sorted((n for n in ast.walk(node) if isinstance(n, (ast.Assign, ast.AnnAssign))),
+                       key=lambda n: (n.lineno, n.col_offset))
+        for n in stmts:
+            tgt = n.targets[0] if isinstance(n, ast.Assign) and len(n.targets) == 1 else getattr(n, "target", None)
+            val = n.value
+            if not isinstance(tgt, ast.Name) or tgt.id in c.locals_ or val is None:
+                continue
+            kind = "list" if isinstance(val, ast.List) and not val.elts else \
+                "dict" if isinstance(val, ast.Dict) and not val.keys else None
+            if kind and tgt.id not in untyped[kind]:
+                untyped[kind].append(tgt.id)
+        alias = {}
+        for kind in ("list", "dict"):
+            if len(untyped[kind]) == len(orphans[kind]):
+                alias.update(dict(zip(untyped[kind], orphans[kind])))
+        return alias
+
+    def _local_ty(self, name: str):
+        """The declared sort of a local (through the role it plays when it was renamed)."""
+        return self.c.locals_.get(name) or self.c.locals_.get(getattr(self, "local_alias", {}).get(name, ""))
+
     def _ns(self, env: dict[str, Val], **extra) -> SimpleNamespace:
         d = {k: unwrap(v) for k, v in env.items() if isinstance(v, Val)}
+        for actual, role in getattr(self, "local_alias", {}).items():
+            if actual in d and role not in d:
+                d[role] = d[actual]
         d.update(extra)
         return SimpleNamespace(**d)
 
@@ -395,7 +435,7 @@ class Engine:
 
     def _local_hint(self, tgt):
         if isinstance(tgt, ast.Name):
-            return self.c.locals_.get(tgt.id)
+            return self._local_ty(tgt.id)
         return None
 
     def s_AugAssign(self, node, st):
@@ -701,8 +741,8 @@ class Engine:
                 nv.mut = old.mut
                 s.env[m] = nv
                 s.pc += old.ty.wf(nv.t)
-            elif m in self.c.locals_:
-                nv = self.c.locals_[m].fresh(m)
+            elif self._local_ty(m) is not None:
+                nv = self._local_ty(m).fresh(m)
                 s.env[m] = nv
                 s.pc += nv.ty.wf(nv.t)
             else:
@@ -855,7 +895,7 @@ class Engine:
             for k_ in [k_ for k_ in st.env if "." in k_ and (k_ == root or k_.startswith(root + ".") or k_.split(".")[0] == base)]:
                 del st.env[k_]
         if isinstance(tgt, ast.Name):
-            hint = self.c.locals_.get(tgt.id)
+            hint = self._local_ty(tgt.id)
             if hint is not None:
                 v = self.coerce(v, hint, st, node)
             if writeback:
